@@ -188,7 +188,8 @@ def main(run):
         "rule": ("%d random packages of the enum grammar (harness/enumgen.py, profile c04: 1..3 integer types of the ten "
                  "kinds, 1..3 files, const blocks in the styles iota-expression / explicit literals incl. negative and "
                  "extreme values / multi-name / single, with carried-down specs, `_`, untyped and other-type "
-                 "interlopers, harmless qualified-type specs, prefixed / unprefixed / near-miss names; shoot run per "
+                 "interlopers, qualified-type specs (time.Duration, os.FileMode, time.Month) with constants carried down from them, "
+                 "prefixed / unprefixed / near-miss / suffixed names; shoot run per "
                  "type, jointly, with -type=* or -file) plus the hand-made witnesses; per target the oracle evaluates "
                  "Values/Strings/ValueMap/StringMap and String/IsValid on a window of up to %d values around and "
                  "between the declared ones (kind min/max included) and prints every constant; evaluations = table "
@@ -237,10 +238,8 @@ TRUSTED = [
 ]
 
 ASSUMPTIONS = [
-    "guards of the theorems (decidable, Properties/C04.v enum_guard): the package compiles; a const spec with a "
-    "qualified type such as time.Duration is not followed by a carried-down spec (open finding "
-    "K_enum_foreign_carry) and no spec's type is only inferred from its expression such as `AB = A | B` (open "
-    "finding K_enum_implicit_type); no two constants of the type "
+    "guards of the theorems (decidable, Properties/C04.v enum_guard): the package compiles; no spec's type is only "
+    "inferred from its expression such as `AB = A | B` (open finding K_enum_implicit_type); no two constants of the type "
     "with one value (open finding K_enum_dup) or with one trimmed name; each excluded class has a refutation "
     "theorem C04_refuted_<K> and its witness is replayed against the binary on every run",
     "the comparison stream stays inside the guard (checked per case inside Coq: EnumCorr.in_guard; a case in the "
